@@ -267,9 +267,11 @@ impl Interp {
 
 	/// Stepping mode precondition (DESIGN 3.1): never let more than 4 consumed log files wait
 	/// for clean_logs when a record is enacted with no cleanup thread to wake us.
-	fn ensure_cleanup_room(&mut self, need: usize) -> Res<()> {
+	/// Returns false when the inserted `clean_logs` failed under an armed fault injector (the
+	/// step it belongs to is then a faulted step, the error recorded as a worker would).
+	fn ensure_cleanup_room(&mut self, need: usize) -> Res<bool> {
 		if self.background {
-			return Ok(())
+			return Ok(true)
 		}
 		// enact_logs waits (for a cleanup thread that does not exist here) only while MORE than
 		// `limit` consumed log files await clean_logs, checked after each enacted record
@@ -278,14 +280,13 @@ impl Interp {
 		let _ = need;
 		if dirty > limit {
 			self.labels.insert("auto-clean");
-			if let Err(e) = self.db().clean_logs() {
-				if !self.fault_armed {
-					fail!(format!("clean-failed:{}", err_sig(&e)), "clean_logs failed: {e}")
-				}
+			let r = self.db().clean_logs();
+			if self.lib("clean_logs", r)?.is_none() {
+				return Ok(false)
 			}
 			self.stage_cleaned();
 		}
-		Ok(())
+		Ok(true)
 	}
 
 	/// Dropping the handle never waits for log cleanup (shutdown is requested first), so nothing
@@ -758,7 +759,9 @@ impl Interp {
 				}
 			},
 			Op::E => {
-				self.ensure_cleanup_room(1)?;
+				if !self.ensure_cleanup_room(1)? {
+					return Ok(StepOut::Faulted("clean_logs (inserted before enact_logs)".into()))
+				}
 				let r = self.db().enact_logs();
 				if self.lib("enact_logs", r)?.is_none() {
 					return Ok(StepOut::Faulted("enact_logs".into()))
